@@ -28,7 +28,7 @@ SPEC = {
                      'handlers; plus events delivered on 2-3 channels at once (success_channels) with handlers of interleaved '
                      'priorities spread over those channels; non-trivial = >=4 dispatches'),
     'C04': dict(manual=[(['prio', 'values', 'gen', 'flags', 'stop'], 900), (['values', 'gen', 'flags', 'chan'], 300)], run=[],
-                kinds={'F', 'D', 'I', 'P'}, opts=dict(values=True),
+                exc_patterns=120, kinds={'F', 'D', 'I', 'P'}, opts=dict(values=True),
                 nontrivial=lambda w: any(e.startswith('P') for e in w.log) or any(':3' in e or '906' in e for e in w.log),
                 rule='handlers drawn from {return v, return None, raise, generator yielding k values, generator raising at step j} '
                      'x success/failure/notify flags x success_channels x nested fires; non-trivial = a generator step or a raise'),
@@ -81,6 +81,8 @@ def scenarios(ctx, prop):
         out.append(core_gen.gen_cache_pattern(ctx.rng))
     for _ in range(sp.get('multichan_patterns', 0) * ctx.scale):
         out.append(core_gen.gen_multichan_pattern(ctx.rng))
+    for _ in range(sp.get('exc_patterns', 0) * ctx.scale):
+        out.append(core_gen.gen_exc_handler_pattern(ctx.rng))
     for _ in range(sp.get('stop_patterns', 0) * ctx.scale):
         out.append(core_gen.gen_stop_pattern(ctx.rng))
     for _ in range(sp.get('sharedwait_patterns', 0) * ctx.scale):
